@@ -39,7 +39,7 @@ META = {
     "assumptions": ["eval(f'child_values[0] {symbol} child_values[1]') is the only generic combination site",
                     "operator trees are built only through Operator's overloads / constructor calls with operation="],
 }
-MIN_INSTANCES = {"R1": 6, "R2": 12, "R3": 6, "R4": 4, "R5": 4, "R6": 1, "R7": 1, "R8": 4, "R9": 1}
+MIN_INSTANCES = {"R1": 6, "R2": 12, "R3": 6, "R4": 4, "R5": 4, "R6": 1, "R7": 1, "R8": 4, "R9": 1, "R10": 1, "R11": 1}
 
 
 def _ops_member(node: ast.AST) -> str | None:
@@ -374,6 +374,50 @@ def run(ctx: Ctx) -> None:
               "overload is never called", construct="class Operator: numpy binary-op protocol",
               facts={"class_attrs": sorted(body_names)})
 
+
+    # ---------------- R10 the parse cache never survives an evaluation --------------------------------
+    # AdParser caches parsed leaves during one evaluation.  Leaves such as TimeDependentDenseArray read data that changes
+    # between evaluations, so the cache must be empty whenever `evaluate` is left - also by an exception.  Accepted: the
+    # `_evaluate_single` calls sit in a `try` whose `finally` clears the cache, or the cache is cleared before the first call.
+    evaluate = par.func("AdParser.evaluate")
+    from ..core.astutil import parent_map as _pm10
+    pm10 = _pm10(evaluate)
+    ev_calls = [c for c in walk_local(evaluate) if isinstance(c, ast.Call) and isinstance(c.func, ast.Attribute) and c.func.attr == "_evaluate_single"]
+    clears = [c for c in walk_local(evaluate) if isinstance(c, ast.Call) and isinstance(c.func, ast.Attribute) and c.func.attr == "clear_cache"]
+    if not ev_calls:
+        raise AnchorError("AdParser.evaluate: no call of _evaluate_single")
+    uses_cache = any(isinstance(n, ast.Attribute) and n.attr == "_cache" for n in ast.walk(ev)) or bool(clears)
+    if uses_cache:
+        def in_finally_of_enclosing_try(call, clear) -> bool:
+            p = pm10.get(call)
+            while p is not None and p is not evaluate:
+                if isinstance(p, ast.Try) and any(clear is x for st in p.finalbody for x in ast.walk(st)) and \
+                        any(call is x for st in p.body for x in ast.walk(st)):
+                    return True
+                p = pm10.get(p)
+            return False
+        first = min(c.lineno for c in ev_calls)
+        cleared_before = any(cl.lineno < first and pm10.get(pm10.get(cl)) is evaluate for cl in clears)
+        ok10 = cleared_before or all(any(in_finally_of_enclosing_try(c, cl) for cl in clears) for c in ev_calls)
+        ctx.check("R10", ok10, par, "AdParser.evaluate", ev_calls[0],
+                  "the parse cache is cleared only on the successful path: after an evaluation that raises, cached leaves survive and "
+                  "the next evaluation returns their stale values (e.g. a TimeDependentDenseArray whose data changed in between)",
+                  construct="AdParser.evaluate: cache cleared on every exit", facts={"clear_cache_calls": [c.lineno for c in clears]})
+
+    # ---------------- R11 stored values are not cast to the data type of the state ---------------------
+    # In the md-variable arm for previous time steps / iterates the stored values are scattered into a fresh vector shaped like
+    # the state.  `np.empty_like(state)` inherits the state's dtype: an integer state truncates the stored floats.
+    n11 = 0
+    for c in walk_local(ev):
+        if isinstance(c, ast.Call) and dotted(c.func) in ("np.empty_like", "np.zeros_like", "np.ones_like", "np.full_like"):
+            if not any("ad_base" in names_in(a) or "state" in names_in(a) for a in c.args[:1]):
+                continue
+            n11 += 1
+            dt = kwarg(c, "dtype")
+            ok11 = dt is not None and u(dt) in ("float", "np.float64", "np.double", "'float64'", "np.float_")
+            ctx.check("R11", ok11, par, "AdParser._evaluate_single", c,
+                      f"`{u(c)[:90]}` inherits the data type of the state vector; the stored values of the variable are scattered into it, "
+                      f"so an integer state truncates them", construct="_evaluate_single: vector for stored values has a float dtype")
 
     # ---------------- R8 indices are never defaulted by truthiness -----------------------------------
     # time_step_index / iterate_index: None = "current", 0 = the most recent stored value.  `idx or default` conflates the
@@ -760,6 +804,10 @@ def _m(name, old, new, rule, file=OPS, control=False, count=1):
 
 
 MUTANTS = [
+    _m("revert-fix-cache-cleared-on-success-only", "            # to safely cache some results also between evaluations.\n            self.clear_cache()\n",
+       "            # to safely cache some results also between evaluations.\n            pass\n        self.clear_cache()\n", "R10", file=PARSER, control=True),
+    _m("revert-fix-empty-like-inherits-state-dtype", "                        ad_base.val if isinstance(ad_base, pp.ad.AdArray) else ad_base,\n                        dtype=float,\n",
+       "                        ad_base.val if isinstance(ad_base, pp.ad.AdArray) else ad_base,\n", "R11", file=PARSER),
     _m("seed-md-variable-index-or-default", "        self._time_step_index = -1 if time_indices[0] is None else time_indices[0]\n",
        "        self._time_step_index = time_indices[0] or -1\n", "R8"),
     _m("seed-md-variable-iterate-index-ifexp-truthiness", "            self._iterate_index = -1 if iter_indices[0] is None else iter_indices[0]\n",
